@@ -1,8 +1,285 @@
 import PilotaModel.Base.Sexp
-/-  Line-protocol verbs of track Idl (stub: answers nothing yet). -/
-namespace Driver.Idl
-open Pilota
+import PilotaModel.Idl.Parser
+import PilotaModel.Idl.Printer
+import PilotaModel.Idl.WF
+/-
+  Line-protocol verbs of track Idl (C15, C16).
 
-def answer (_items : List Sexp) : Option String := none
+    idl-parse <kind> <hex of UTF-8 text>            model parser on the text
+        -> ok <remaining chars> <ast> | err | fail | panic | fuel
+    idl-rt <file-ast> <layout> <hex text>           as `idl-parse file`, plus: is the text the model's
+        -> <parse answer> render=<0|1> wf=<0|1>      `render layout ast`?  is the AST `File.wf`?
+    idl-alnum <lo> <hi>                             `isAlnumU` over code points lo..hi-1
+        -> ok <count> <checksum>
+    idl-lower                                        characters whose lower-case form is "e"
+        -> ok 69,101
+-/
+namespace Driver.Idl
+open Pilota Pilota.Idl
+
+/-! ### strings and AST as S-expressions -/
+
+def hexStr (cs : List Char) : String := hexOrDash (String.ofList cs).toUTF8.toList
+
+def textOfHex (x : Sexp) : Option (List Char) := do
+  let bs ← x.asHex
+  let s ← String.fromUTF8? (ByteArray.mk bs.toArray)
+  pure s.toList
+
+def sx (xs : List String) : String := "(" ++ " ".intercalate xs ++ ")"
+
+def pathS (p : Path) : String := sx ("path" :: p.segments.map hexStr)
+def annsS (a : Annotations) : String := sx ("anns" :: a.map fun x => sx [hexStr x.key, hexStr x.value])
+def cppS : Option CppType → String
+  | none => "none"
+  | some l => sx ["cpp", hexStr l]
+
+mutual
+partial def tyS : Ty → String
+  | .string => "string" | .void => "void" | .byte => "byte" | .bool => "bool" | .binary => "binary"
+  | .i8 => "i8" | .i16 => "i16" | .i32 => "i32" | .i64 => "i64" | .double => "double" | .uuid => "uuid"
+  | .list v c => sx ["list", typeS v, cppS c]
+  | .set v c => sx ["set", typeS v, cppS c]
+  | .map k v c => sx ["map", typeS k, typeS v, cppS c]
+  | .path p => pathS p
+partial def typeS : TypeA → String
+  | .mk t a => sx ["type", tyS t, annsS a]
+end
+
+partial def cvS : ConstValue → String
+  | .bool b => sx ["bool", if b then "1" else "0"]
+  | .path p => pathS p
+  | .string l => sx ["str", hexStr l]
+  | .int n => sx ["int", toString n]
+  | .double t => sx ["dbl", hexStr t]
+  | .list xs => sx ("list" :: xs.map cvS)
+  | .map kvs => sx ("map" :: kvs.map fun kv => sx [cvS kv.1, cvS kv.2])
+
+def attrS : Attribute → String
+  | .optional => "optional" | .required => "required" | .default => "default"
+
+def fieldS (f : Field) : String :=
+  sx ["field", toString f.id, hexStr f.name, attrS f.attr, typeS f.ty,
+      (match f.dflt with | none => "none" | some c => cvS c), annsS f.annotations]
+
+def structLikeS (kind : String) (s : StructLike) : String :=
+  sx [kind, hexStr s.name, sx ("fields" :: s.fields.map fieldS), annsS s.annotations]
+
+def enumValueS (v : EnumValue) : String :=
+  sx ["ev", hexStr v.name, (match v.value with | none => "none" | some n => toString n), annsS v.annotations]
+
+def fnS (f : Function) : String :=
+  sx ["fn", hexStr f.name, (if f.oneway then "1" else "0"), typeS f.resultType,
+      sx ("args" :: f.arguments.map fieldS), sx ("throws" :: f.throws.map fieldS), annsS f.annotations]
+
+def itemS : Item → String
+  | .include p => sx ["include", hexStr p]
+  | .cppInclude p => sx ["cppinclude", hexStr p]
+  | .namespace n => sx ["namespace", hexStr n.scope, pathS n.name,
+      (match n.annotations with | none => "none" | some a => annsS a)]
+  | .typedef t => sx ["typedef", typeS t.ty, hexStr t.alias, annsS t.annotations]
+  | .constant c => sx ["const", hexStr c.name, typeS c.ty, cvS c.value, annsS c.annotations]
+  | .enum e => sx ["enum", hexStr e.name, sx ("values" :: e.values.map enumValueS), annsS e.annotations]
+  | .struct s => structLikeS "struct" s
+  | .union s => structLikeS "union" s
+  | .exception s => structLikeS "exception" s
+  | .service s => sx ["service", hexStr s.name, (match s.ext with | none => "none" | some p => pathS p),
+      sx ("fns" :: s.functions.map fnS), annsS s.annotations]
+
+def fileS (f : File) : String :=
+  sx ("file" :: (match f.package with | none => "none" | some p => pathS p) :: f.items.map itemS)
+
+/-! ### reading an AST and a layout back (verb `idl-rt`) -/
+
+def strOf (x : Sexp) : Option (List Char) := textOfHex x
+
+def pathOf : Sexp → Option Path
+  | .list (.atom "path" :: segs) => do pure ⟨← segs.mapM strOf⟩
+  | _ => none
+
+def annsOf : Sexp → Option Annotations
+  | .list (.atom "anns" :: xs) => xs.mapM fun
+    | .list [k, v] => do pure { key := ← strOf k, value := ← strOf v }
+    | _ => none
+  | _ => none
+
+def cppOf : Sexp → Option (Option CppType)
+  | .atom "none" => some none
+  | .list [.atom "cpp", l] => do pure (some (← strOf l))
+  | _ => none
+
+mutual
+partial def tyOf : Sexp → Option Ty
+  | .atom "string" => some .string | .atom "void" => some .void | .atom "byte" => some .byte
+  | .atom "bool" => some .bool | .atom "binary" => some .binary | .atom "i8" => some .i8
+  | .atom "i16" => some .i16 | .atom "i32" => some .i32 | .atom "i64" => some .i64
+  | .atom "double" => some .double | .atom "uuid" => some .uuid
+  | .list [.atom "list", v, c] => do pure (.list (← typeOf v) (← cppOf c))
+  | .list [.atom "set", v, c] => do pure (.set (← typeOf v) (← cppOf c))
+  | .list [.atom "map", k, v, c] => do pure (.map (← typeOf k) (← typeOf v) (← cppOf c))
+  | x => do pure (.path (← pathOf x))
+partial def typeOf : Sexp → Option TypeA
+  | .list [.atom "type", t, a] => do pure (.mk (← tyOf t) (← annsOf a))
+  | _ => none
+end
+
+partial def cvOf : Sexp → Option ConstValue
+  | .list [.atom "bool", .atom b] => some (.bool (b == "1"))
+  | .list [.atom "str", l] => do pure (.string (← strOf l))
+  | .list [.atom "int", n] => do pure (.int (← n.asInt))
+  | .list [.atom "dbl", t] => do pure (.double (← strOf t))
+  | .list (.atom "list" :: xs) => do pure (.list (← xs.mapM cvOf))
+  | .list (.atom "map" :: kvs) => do
+    pure (.map (← kvs.mapM fun
+      | .list [k, v] => do pure (← cvOf k, ← cvOf v)
+      | _ => none))
+  | x => do pure (.path (← pathOf x))
+
+def attrOf : Sexp → Option Attribute
+  | .atom "optional" => some .optional | .atom "required" => some .required | .atom "default" => some .default
+  | _ => none
+
+def fieldOf : Sexp → Option Field
+  | .list [.atom "field", id, name, attr, ty, dflt, anns] => do
+    let d ← match dflt with
+      | .atom "none" => pure none
+      | x => do pure (some (← cvOf x))
+    pure { id := ← id.asInt, name := ← strOf name, attr := ← attrOf attr, ty := ← typeOf ty, dflt := d,
+           annotations := ← annsOf anns }
+  | _ => none
+
+def fieldsOf (tagName : String) : Sexp → Option (List Field)
+  | .list (.atom t :: fs) => if t == tagName then fs.mapM fieldOf else none
+  | _ => none
+
+def structLikeOf (name fields anns : Sexp) : Option StructLike := do
+  pure { name := ← strOf name, fields := ← fieldsOf "fields" fields, annotations := ← annsOf anns }
+
+def enumValueOf : Sexp → Option EnumValue
+  | .list [.atom "ev", name, v, anns] => do
+    let value ← match v with
+      | .atom "none" => pure none
+      | x => do pure (some (← x.asInt))
+    pure { name := ← strOf name, value := value, annotations := ← annsOf anns }
+  | _ => none
+
+def fnOf : Sexp → Option Function
+  | .list [.atom "fn", name, .atom ow, ty, args, throws, anns] => do
+    pure { name := ← strOf name, oneway := ow == "1", resultType := ← typeOf ty,
+           arguments := ← fieldsOf "args" args, throws := ← fieldsOf "throws" throws, annotations := ← annsOf anns }
+  | _ => none
+
+def itemOf : Sexp → Option Item
+  | .list [.atom "include", p] => do pure (.include (← strOf p))
+  | .list [.atom "cppinclude", p] => do pure (.cppInclude (← strOf p))
+  | .list [.atom "namespace", scope, name, anns] => do
+    let a ← match anns with
+      | .atom "none" => pure none
+      | x => do pure (some (← annsOf x))
+    pure (.namespace { scope := ← strOf scope, name := ← pathOf name, annotations := a })
+  | .list [.atom "typedef", ty, alias, anns] => do
+    pure (.typedef { ty := ← typeOf ty, alias := ← strOf alias, annotations := ← annsOf anns })
+  | .list [.atom "const", name, ty, v, anns] => do
+    pure (.constant { name := ← strOf name, ty := ← typeOf ty, value := ← cvOf v, annotations := ← annsOf anns })
+  | .list [.atom "enum", name, .list (.atom "values" :: vs), anns] => do
+    pure (.enum { name := ← strOf name, values := ← vs.mapM enumValueOf, annotations := ← annsOf anns })
+  | .list [.atom "struct", n, f, a] => do pure (.struct (← structLikeOf n f a))
+  | .list [.atom "union", n, f, a] => do pure (.union (← structLikeOf n f a))
+  | .list [.atom "exception", n, f, a] => do pure (.exception (← structLikeOf n f a))
+  | .list [.atom "service", name, ext, .list (.atom "fns" :: fs), anns] => do
+    let e ← match ext with
+      | .atom "none" => pure none
+      | x => do pure (some (← pathOf x))
+    pure (.service { name := ← strOf name, ext := e, functions := ← fs.mapM fnOf, annotations := ← annsOf anns })
+  | _ => none
+
+def fileOf : Sexp → Option File
+  | .list (.atom "file" :: pkg :: items) => do
+    let p ← match pkg with
+      | .atom "none" => pure none
+      | x => do pure (some (← pathOf x))
+    pure { package := p, items := ← items.mapM itemOf }
+  | _ => none
+
+/-- `(lay (c <sep> <flag> piece…)…)`, piece = `(w hex)` | `(l hex)` | `(h hex)` | `(b hex)` -/
+def pieceOf : Sexp → Option Piece
+  | .list [.atom "w", t] => do pure (.ws (← strOf t))
+  | .list [.atom "l", t] => do pure (.line (← strOf t))
+  | .list [.atom "h", t] => do pure (.hash (← strOf t))
+  | .list [.atom "b", t] => do pure (.block (← strOf t))
+  | _ => none
+
+def layoutOf : Sexp → Option Layout
+  | .list (.atom "lay" :: cs) => cs.mapM fun
+    | .list (.atom "c" :: sep :: .atom flag :: ps) => do
+      pure { pieces := ← ps.mapM pieceOf, sep := ← sep.asNat, flag := flag == "1" }
+    | _ => none
+  | _ => none
+
+/-! ### verbs -/
+
+def prS {α} (show_ : α → String) : PR α → String
+  | .ok a r => s!"ok {r.length} {show_ a}"
+  | .err => "err"
+  | .fail => "fail"
+  | .panic _ => "panic"
+  | .fuel => "fuel"
+
+def parseKind (kind : String) (s : List Char) : Option String :=
+  let d := s.length + 2
+  match kind with
+  | "file" => some (prS fileS (File.parse s))
+  | "item" => some (prS itemS (Item.parse d s))
+  | "type" => some (prS typeS (Type.parse d s))
+  | "cv" => some (prS cvS (ConstValue.parse d s))
+  | "field" => some (prS fieldS (Field.parse d s))
+  | "fn" => some (prS fnS (Function.parse d s))
+  | "ident" => some (prS (fun i => sx ["id", hexStr i]) (Ident.parse s))
+  | "path" => some (prS pathS (Path.parse s))
+  | "lit" => some (prS (fun l => sx ["lit", hexStr l]) (Literal.parse s))
+  | "anns" => some (prS annsS (Annotations.parse s))
+  | "int" => some (prS (fun n => sx ["int", toString n]) (IntConstant.parse s))
+  | "dbl" => some (prS (fun t => sx ["dbl", hexStr t]) (DoubleConstant.parse s))
+  | _ => none
+
+def alnumScan (lo hi : Nat) : Nat × Nat := Id.run do
+  let mut cnt := 0
+  let mut sum := 0
+  for cp in [lo:hi] do
+    if cp < 0xD800 || (cp > 0xDFFF && cp < 0x110000) then
+      if isAlnumU (Char.ofNat cp) then
+        cnt := cnt + 1
+        sum := (sum * 31 + cp) % 1000000007
+  return (cnt, sum)
+
+def lowerScan : List Nat := Id.run do
+  let mut acc : List Nat := []
+  for cp in [0:256] do
+    if lowerEq (Char.ofNat cp) 'e' then acc := cp :: acc
+  return acc.reverse
+
+def answer (items : List Sexp) : Option String := do
+  let verb ← items.head? >>= Sexp.asAtom
+  match verb with
+  | "idl-parse" =>
+    let kind ← items[1]? >>= Sexp.asAtom
+    let text ← items[2]? >>= textOfHex
+    parseKind kind text
+  | "idl-rt" =>
+    let ast ← items[1]? >>= fileOf
+    let lay ← items[2]? >>= layoutOf
+    let text ← items[3]? >>= textOfHex
+    let r := if (render lay ast) = text then "1" else "0"
+    pure s!"{prS fileS (File.parse text)} render={r} wf={if ast.wf then "1" else "0"}"
+  | "idl-wf" =>
+    let ast ← items[1]? >>= fileOf
+    pure s!"ok {" ".intercalate (ast.items.map fun i => if i.wf then "1" else "0")}"
+  | "idl-alnum" =>
+    let lo ← items[1]? >>= Sexp.asNat
+    let hi ← items[2]? >>= Sexp.asNat
+    let (c, s) := alnumScan lo hi
+    pure s!"ok {c} {s}"
+  | "idl-lower" => pure s!"ok {",".intercalate (lowerScan.map toString)}"
+  | _ => none
 
 end Driver.Idl
